@@ -502,6 +502,7 @@ def _undo_cancel_fix(root):
 
 
 MUTANTS = [
+    ("yield [..]: the unfinished set is filled while registering (seeded C37-adv4 / C36-adv2)", lambda repo: mutate(repo, G, "multi_future", lambda root: __import__("vt.props.c36", fromlist=["_merge_sets"])._merge_sets(root)), "C37.multi"),
     ("first step: `raise gen.Return(v)` before any yield is stored as an error (handler names StopIteration only, seeded C37-adv1)", _in_wrapper(lambda root: _first_step_only(root, "StopIteration")), "C37.outcome"),
     ("the decorated function raising gen.Return(v) without being a generator is stored as an error", _in_wrapper(lambda root: _call_handler_only(root)), "C37.outcome"),
     ("_value_from_stopiteration returns the args tuple", _in("_value_from_stopiteration", replace_expr(lambda n: isinstance(n, ast.Subscript) and "args" in ast.unparse(n), lambda n: n.value)), "C37.outcome"),
